@@ -1,7 +1,8 @@
 #!/bin/sh
 # applies every seeded change to a scratch worktree of /repo in turn (never to /repo itself), runs the
 # check(s) of its property at the quick tier against that worktree (VERIF_REPO; no evidence is written)
-cd /verif
+cd "$(dirname "$0")/.." || exit 2   # the tree this script lives in
+V=$(pwd)
 WT=${TMPDIR:-/tmp}/verif-seedrun-$$
 git -C /repo worktree add -q --detach $WT HEAD || exit 2
 trap 'git -C /repo worktree remove --force $WT; git -C /repo worktree prune' EXIT
@@ -9,11 +10,11 @@ for d in seeded/*/; do
   name=$(basename $d); prop=$(python3 -c "import json;print(json.load(open('$d/meta.json'))['property'])")
   extra=$(python3 -c "import json;print(' '.join(json.load(open('$d/meta.json')).get('also_checks',[])))")
   if python3 -c "import json,sys;sys.exit(0 if json.load(open('$d/meta.json')).get('superseded') else 1)"; then echo "$name: SKIP (superseded, see meta.json)"; continue; fi
-  git -C $WT checkout -q -- . ; git -C $WT apply /verif/$d/patch.diff || { echo "$name: APPLY FAILED"; continue; }
+  git -C $WT checkout -q -- . ; git -C $WT apply $V/$d/patch.diff || { echo "$name: APPLY FAILED"; continue; }
   for c in $prop $extra; do
     out=$(VERIF_REPO=$WT bin/verif check $c --tier ${1:-quick} 2>&1); rc=$?
     echo "$name $c: exit=$rc $(echo "$out" | grep -m1 'class=' | cut -c1-140)"
   done
   git -C $WT checkout -q -- .
 done
-rm -rf /verif/replays/*/
+rm -rf $V/replays/*/
